@@ -81,9 +81,12 @@ class SimSocket(object):
             run.log([3, 0])
         else:
             run.log([2, data])
+        # the errno and the text of the failure vary from one fault to the next (deterministically): a reset, an
+        # interrupted call, a broken pipe, a full buffer, and messages containing format characters
+        k = (run.n_sendall + len(data)) % len(OS_ERRORS)
         if fault == "oserr":
-            raise _socket.error(104, "Connection reset by peer")
-        raise RuntimeError("sendall exploded")
+            raise _socket.error(*OS_ERRORS[k])
+        raise RuntimeError(EXC_TEXTS[k % len(EXC_TEXTS)])
 
     def recv_into(self, buf, nbytes=0):
         r = self.next_recv
@@ -100,9 +103,10 @@ class SimSocket(object):
             return n
         if kind == "eof":
             return 0
+        k = (self.run.pos + self.run.n_sendall) % len(OS_ERRORS)
         if kind == "oserr":
-            raise _socket.error(104, "Connection reset by peer")
-        raise RuntimeError("recv exploded")
+            raise _socket.error(*OS_ERRORS[k])
+        raise RuntimeError(EXC_TEXTS[k % len(EXC_TEXTS)])
 
     def shutdown(self, how):
         if self.closed:
@@ -145,7 +149,7 @@ class SimSelector(object):
         if kind == "timeout":
             return False, max_bytes
         if kind == "selexc":
-            raise IOError("selector exploded")
+            raise IOError(EXC_TEXTS[run.pos % len(EXC_TEXTS)])
         if kind == "data":
             self.sock.next_recv = ("data", st[2])
         else:
@@ -487,6 +491,9 @@ class _OsProxy(object):
 STEP_CODES = {"timeout": 0, "data": 1, "eof": 2, "oserr": 3, "exc": 4, "selexc": 5}
 ACT_CODES = {"text": 0, "binary": 1, "ping": 2, "pong": 3, "close": 4, "abandon": 5}
 WF_CODES = {"ok": 0, "oserr": 1, "exc": 2}
+OS_ERRORS = [(104, "Connection reset by peer"), (4, "Interrupted system call"), (32, "Broken pipe"),
+             (11, "Resource temporarily unavailable"), (5, "I/O error on {fd} at {0}%s {}"), (110, "Connection timed out")]
+EXC_TEXTS = ["sendall exploded", "bad state {'fd': 7} %d {}", "{", "}"]
 CN_CODES = {"ok": 0, "sockfail": 1, "exc": 2}
 
 
